@@ -528,6 +528,22 @@ struct Sink {
     data: Vec<u8>,
 }
 
+struct RefusingSink {
+    calls: usize,
+    refuse_at: usize,
+    got: usize,
+}
+
+unsafe extern "C" fn refusing_put(_buf: *const c_void, len: c_int, user: *mut c_void) -> i32 {
+    let s = &mut *(user as *mut RefusingSink);
+    s.calls += 1;
+    if s.calls - 1 == s.refuse_at {
+        return 0;
+    }
+    s.got += len as usize;
+    1
+}
+
 unsafe extern "C" fn sink_put(buf: *const c_void, len: c_int, user: *mut c_void) -> i32 {
     let s = &mut *(user as *mut Sink);
     s.data.extend_from_slice(std::slice::from_raw_parts(buf as *const u8, len as usize));
@@ -690,6 +706,19 @@ fn c_tdefl(data: &Recipe, level: i32, zlib: bool, strategy: i32, mode: u8, chunk
             } else {
                 vensure!(n == 0, "c17:tdefl_mem_to_mem-differs", "output ({}) does not fit in {out_len} but {n} was returned", want.len());
             }
+            // destinations around and below the needed size (a stream of several blocks may have a
+            // small last block that would fit on its own)
+            for dl in [want.len(), want.len().saturating_sub(1), want.len() + 1, want.len() / 2, want.len() * 3 / 4, want.len() / 8, 1, 0] {
+                let go = GuardBuf::new(dl, al(end_align));
+                // SAFETY: guard buffers
+                let n = guard(|| unsafe { tdefl_compress_mem_to_mem(go.ptr() as *mut c_void, dl, gin.ptr() as *const c_void, x.len(), flags as c_int) }).map_err(|pm| Violation::new(panic_sig("c17:tdefl_compress_mem_to_mem", &pm), format!("unwound: {pm}")))?;
+                if want.len() <= dl {
+                    vensure!(n == want.len() && go.as_slice()[..n] == want[..], "c17:tdefl_mem_to_mem-differs", "tdefl_compress_mem_to_mem returned {n}, Rust compress gives {} bytes (destination {dl})", want.len());
+                } else {
+                    vensure!(n == 0, "c17:tdefl_mem_to_mem-differs", "output ({} bytes) does not fit in a destination of {dl} but {n} was returned", want.len());
+                }
+                cx.evals(1);
+            }
             cx.class("fn:tdefl_compress_mem_to_mem");
         }
         2 => {
@@ -709,6 +738,22 @@ fn c_tdefl(data: &Recipe, level: i32, zlib: bool, strategy: i32, mode: u8, chunk
             // SAFETY: callback and user pointer outlive the call
             let ok = guard(|| unsafe { tdefl_compress_mem_to_output(gin.ptr() as *const c_void, x.len(), Some(sink_put), &mut sink as *mut Sink as *mut c_void, flags as c_int) }).map_err(|pm| Violation::new(panic_sig("c17:tdefl_compress_mem_to_output", &pm), format!("unwound: {pm}")))?;
             vensure!(ok != 0 && sink.data == want, "c17:tdefl_mem_to_output-differs", "tdefl_compress_mem_to_output: ok {ok}, {} bytes vs Rust {}", sink.data.len(), want.len());
+            // a callback that refuses its k-th invocation: failure must be reported, as by the Rust call
+            {
+                let k = out_len % 3;
+                let mut rs = RefusingSink { calls: 0, refuse_at: k, got: 0 };
+                // SAFETY: callback and user pointer outlive the call
+                let ok = guard(|| unsafe { tdefl_compress_mem_to_output(gin.ptr() as *const c_void, x.len(), Some(refusing_put), &mut rs as *mut RefusingSink as *mut c_void, flags as c_int) }).map_err(|pm| Violation::new(panic_sig("c17:tdefl_compress_mem_to_output", &pm), format!("unwound: {pm}")))?;
+                let mut rc2 = CompressorOxide::new(flags);
+                let mut calls = 0usize;
+                let (rst, _) = miniz_oxide::deflate::core::compress_to_output(&mut rc2, &x, TDEFLFlush::Finish, |_o: &[u8]| {
+                    calls += 1;
+                    calls - 1 != k
+                });
+                let refused = rs.calls > k;
+                vensure!((ok != 0) == (rst == TDEFLStatus::Done) && (!refused || ok == 0), "c17:tdefl_mem_to_output-refusal", "callback refusing invocation #{k} (it was invoked {} times, {} bytes accepted): tdefl_compress_mem_to_output returned {ok}; compress_to_output with the same callback returned {rst:?}", rs.calls, rs.got);
+                cx.evals(1);
+            }
             cx.class("fn:tdefl_compress_mem_to_output");
         }
     }
